@@ -65,3 +65,7 @@ add("C14", "c14", "exploration", 500, 8000,
 add("C15", "c15", "exploration", 300, 6000,
     assumptions=["members are ocimem registries (their own semantics are C02's business); expected union results are computed from the members' own answers",
                  "answer order under the concurrent policy is steered with a delay wrapper (exact schedules are C16's business)"])
+
+add("C09", "c09", "exploration", 1500, 40000, exhaustive_if=["ScopePairsSmallUniverse", "ScopeSetsSmallUniverse"],
+    assumptions=["the naive model is a Go map keyed by the triple; the documented scope syntax (space-separated type:resource:action[,action]) is transcribed in modelParse",
+                 "Len on the unlimited scope panics by documentation and is not called"])
